@@ -404,7 +404,7 @@ structure FarExtension (p : SP ℝ) (env env' : Env ℝ) (atoms atoms' : Tab Ato
   bbdR : p.ep.bbd1 ≤ R
   nhR : ∀ ty r, p.bbNH ty = some r → r.2.2 ≤ R
   coR : ∀ ty r, p.bbCO ty = some r → r.2.2 ≤ R
-  newBBC : ∀ h, groups.n ≤ h → (groups'.get h).iaAcid ≠ [] ∧ (groups'.get h).iaBase ≠ []
+  newBBC : ∀ h, groups.n ≤ h → ((groups'.get h).type == "BBC") = true → (groups'.get h).iaAcid ≠ [] ∧ (groups'.get h).iaBase ≠ []
 
 theorem range_split (m k : Nat) : List.range (m + k) = List.range m ++ (List.range k).map (m + ·) := List.range_add
 
@@ -649,13 +649,14 @@ theorem elocOf_extend (h : FarExtension p env env' atoms atoms' groups groups' R
         exact Nat.le_add_right _ _
       simp only
       refine le_trans h.bbdR (h.farC t _ _ ht ?_)
+      have hty : ((groups'.get b).type == "BBC") = true := (List.mem_filter.mp hb).2
       cases hl : interAtoms p (gget groups' b) (gget groups' t) with
       | nil =>
         exfalso
         unfold interAtoms at hl
         split at hl
-        · exact (h.newBBC b hge).2 hl
-        · exact (h.newBBC b hge).1 hl
+        · exact (h.newBBC b hge hty).2 hl
+        · exact (h.newBBC b hge hty).1 hl
       | cons x xs => exact h.interAtoms_new b hge _ x (by rw [hl]; simp)
     · congr 1
       apply List.map_congr_left
@@ -1017,9 +1018,9 @@ end
 example (p : SP ℝ) (env : Env ℝ) (atoms : Tab AtomT) (groups : Tab (GroupT ℝ)) (R : ℝ) (hR : 0 ≤ R)
     (h1 : p.desolvCut2 ≤ R * R) (h2 : p.buriedCut2 ≤ R * R) (h3 : p.cc2sq ≤ R * R) (h4 : p.ep.bbd1 ≤ R)
     (h5 : ∀ ty r, p.bbNH ty = some r → r.2.2 ≤ R) (h6 : ∀ ty r, p.bbCO ty = some r → r.2.2 ≤ R)
-    (h7 : ∀ h, (groups.get h).iaAcid ≠ [] ∧ (groups.get h).iaBase ≠ []) :
+    (h7 : ∀ h, ((groups.get h).type == "BBC") = true → (groups.get h).iaAcid ≠ [] ∧ (groups.get h).iaBase ≠ []) :
     FarExtension p env env ⟨0, atoms.get⟩ atoms ⟨0, groups.get⟩ groups R := by
   constructor <;> first | exact hR | exact h1 | exact h2 | exact h3 | exact h4 | exact h5 | exact h6 | (intros; omega) | (intros; simp_all) | skip
-  all_goals first | exact Nat.zero_le _ | (intro h _; exact h7 h) | skip
+  all_goals first | exact Nat.zero_le _ | (intro h _ hb; exact h7 h hb) | skip
 
 end Propka.Scoring
